@@ -9,6 +9,6 @@ CONSTANTS
   LockChoices <- NoTops
   Bodies <- B
   SendVals <- SendQuick
-  TopChoices <- AllTops
+  TopChoices <- TopsWithValues
 INVARIANTS RunComplete TypeOK DoneAbsorbing DoneStatus SendCreated LazyCreation Quiescent SuspendedAtYield Emit
 CHECK_DEADLOCK FALSE
